@@ -16,16 +16,16 @@ VARIABLES ctx, scan, hist, probes
 vars == <<ctx, scan, hist, probes>>
 
 (* strings -> bytes, for the characters the event texts use *)
-Ord == [c \in {"a","b","c","d","e","f","i","k","l","n","p","s","u","x","y","0","1","2","4","=","\"","'","/","*"," ","\\","(",")","$","R","{","}",","} |->
+Ord == [c \in {"a","b","c","d","e","f","i","k","l","n","p","s","u","x","y","0","1","2","4","=","\"","'","/","*"," ","\\","(",")","$","R","{","}",",","q","+","\n"} |->
           CASE c = "a" -> 97 [] c = "b" -> 98 [] c = "c" -> 99 [] c = "d" -> 100 [] c = "e" -> 101 [] c = "f" -> 102
             [] c = "i" -> 105 [] c = "k" -> 107 [] c = "l" -> 108 [] c = "n" -> 110 [] c = "p" -> 112 [] c = "s" -> 115
             [] c = "u" -> 117 [] c = "x" -> 120 [] c = "y" -> 121 [] c = "0" -> 48 [] c = "1" -> 49 [] c = "2" -> 50
             [] c = "4" -> 52 [] c = "=" -> 61 [] c = "\"" -> 34 [] c = "'" -> 39 [] c = "/" -> 47 [] c = "*" -> 42
             [] c = " " -> 32 [] c = "\\" -> 92 [] c = "(" -> 40 [] c = ")" -> 41 [] c = "$" -> 36 [] c = "R" -> 82
-            [] c = "{" -> 123 [] c = "}" -> 125 [] c = "," -> 44]
+            [] c = "{" -> 123 [] c = "}" -> 125 [] c = "," -> 44 [] c = "q" -> 113 [] c = "+" -> 43 [] c = "\n" -> 10]
 B(str) == [i \in 1..Len(str) |-> Ord[SubSeq(str, i, i)]]
 
-ByteSchema == << DStr(B("s"), B("d")), DStrList(B("l"), <<>>),
+ByteSchema == << DStr(B("s"), B("d")), DStrList(B("l"), <<B("q")>>),
                  DSec(B("c"), {}, << DStr(B("s"), B("d")) >>), DFunc(B("include"), "include") >>
 Fresh == MkSec(Null, InitOpts(ByteSchema))
 
@@ -41,16 +41,20 @@ FSb ==
   (B("$R/fs") :> [kind |-> "file", toks |-> LexToks(B("include(\"$R/fs\")"))])
 
 Events ==
-  [ok     |-> B("s=a"),
+  [ok     |-> B("s=a\n\n"),
    dq     |-> B("s=\"abc"),
    sq     |-> B("l={x,'abc"),
    cmt    |-> B("s=b /* x"),
    esc    |-> B("s=\"\\400\""),
    incbad |-> B("include(\"$R/fe\")"),
    deep   |-> B("include(\"$R/fs\")"),
-   incok  |-> B("include(\"$R/f1\") l={y}")]
-EventNames == {"ok", "dq", "sq", "cmt", "esc", "incbad", "deep", "incok"}
-ProbeTexts == << B("s=p1"), B("include(\"$R/f1\")"), B("l={x,y} c{s=2}"), B("s=\"u\" /* c */ l={a}") >>
+   incok  |-> B("include(\"$R/f1\") l={y}"),
+   (* an assignment to the list that stops before its first value; appending to what the list holds *)
+   lbad   |-> B("l=)"),
+   app    |-> B("l+={y}")]
+EventNames == {"ok", "dq", "sq", "cmt", "esc", "incbad", "deep", "incok", "lbad", "app"}
+ProbeTexts == << B("s=p1"), B("include(\"$R/f1\")"), B("l={x,y} c{s=2}"), B("s=\"u\" /* c */ l={a}"),
+                B("\nl = = ") >>       \* rejected on its second line
 
 NoEnv == [x \in {} |-> <<>>]
 Clean == [start |-> "INITIAL", inc |-> 0]
@@ -66,6 +70,8 @@ RunText(root, sc, text) ==
             ELSE IF lx.err THEN (IF lx.unspec THEN "unspec" ELSE "fail")
             ELSE p1.status
   IN [status |-> st, root |-> RootOf(p1),
+      (* line of the first diagnostic when the parser (not the scanner) rejects; 0 = not predicted *)
+      dline |-> IF p1.status = "fail" /\ ~lx.err /\ p1.diags # <<>> /\ Len(p1.inc) = Len(p0b.inc) THEN p1.diags[1].line ELSE 0,
       scan |-> IF Repaired THEN Clean
                ELSE [start |-> lx.st, inc |-> IF p1.status = "fail" THEN Len(p1.inc) ELSE sc.inc]]
 
@@ -79,14 +85,14 @@ DoEvent(c, e) ==
   /\ LET r == RunText(ctx[c], scan, Events[e])
      IN /\ ctx' = [ctx EXCEPT ![c] = r.root]
         /\ scan' = r.scan
-        /\ hist' = Append(hist, [c |-> c, e |-> e, text |-> Events[e], status |-> r.status, obs |-> ObsSec(r.root)])
+        /\ hist' = Append(hist, [c |-> c, e |-> e, text |-> Events[e], status |-> r.status, dline |-> r.dline, obs |-> ObsSec(r.root)])
   /\ UNCHANGED probes
 
 FreeInit(c) ==
   /\ Len(hist) < MaxEvents /\ probes = <<>>
   /\ ctx' = [ctx EXCEPT ![c] = Fresh]
   /\ scan' = IF Repaired THEN Clean ELSE [scan EXCEPT !.start = "INITIAL"]   \* cfg_free of a root destroys the scanner
-  /\ hist' = Append(hist, [c |-> c, e |-> "free", text |-> <<>>, status |-> "ok", obs |-> ObsSec(Fresh)])
+  /\ hist' = Append(hist, [c |-> c, e |-> "free", text |-> <<>>, status |-> "ok", dline |-> 0, obs |-> ObsSec(Fresh)])
   /\ UNCHANGED probes
 
 (* the probes: parsed one after the other into context 1, then into context 2 *)
@@ -94,7 +100,7 @@ RECURSIVE RunProbes(_, _, _, _)
 RunProbes(root, sc, k, acc) ==
   IF k > Len(ProbeTexts) THEN acc
   ELSE LET r == RunText(root, sc, ProbeTexts[k])
-       IN RunProbes(r.root, r.scan, k + 1, Append(acc, [text |-> ProbeTexts[k], status |-> r.status, obs |-> ObsSec(r.root)]))
+       IN RunProbes(r.root, r.scan, k + 1, Append(acc, [text |-> ProbeTexts[k], status |-> r.status, dline |-> r.dline, obs |-> ObsSec(r.root)]))
 Probe ==
   /\ probes = <<>> /\ hist # <<>>
   /\ probes' = RunProbes(Fresh, scan, 1, <<>>)
